@@ -63,6 +63,15 @@ func expect(r role, m model, c call) ([]string, model) {
 		}
 		m.Running = true
 		return []string{"nil"}, m
+	case "startshort": // Start with a 31-byte seed: only a dealer needs the seed
+		if m.Running {
+			return []string{"state"}, m
+		}
+		if r.Proto == dkgsys.JF || r.Me == r.Dealer {
+			return []string{"input"}, m // rejected: must not leave the instance running
+		}
+		m.Running = true
+		return []string{"nil"}, m
 	case "timeout":
 		if !qual {
 			return []string{"nil"}, m // no timeouts in plain Feldman VSS: no-op
@@ -99,6 +108,8 @@ func doCall(nd *dkgsys.Node, c call, seed []byte) (cls string, panicked string) 
 		switch c.Kind {
 		case "start":
 			err = nd.Inst.Start(seed)
+		case "startshort":
+			err = nd.Inst.Start(seed[:31])
 		case "timeout":
 			err = nd.Inst.NextTimeout()
 		case "end":
@@ -194,7 +205,7 @@ func alphabet(r role) []call {
 	}
 	complaint := []byte{2, byte(r.Dealer)}
 	answer := append([]byte{3, byte(other)}, share[1:]...)
-	a := []call{{"Start", "start", 0, nil}, {"NextTimeout", "timeout", 0, nil}, {"End", "end", 0, nil}}
+	a := []call{{"Start", "start", 0, nil}, {"Start(31-byte seed)", "startshort", 0, nil}, {"NextTimeout", "timeout", 0, nil}, {"End", "end", 0, nil}}
 	idx := map[string]int{"-1": -1, "self": r.Me, "dealer": r.Dealer, "other": other, "n": r.N}
 	order := []string{"-1", "self", "dealer", "other", "n"}
 	if r.Proto == dkgsys.JF {
@@ -261,7 +272,7 @@ func explore(r role, maxDepth int) {
 			continue
 		}
 		for ci, c := range alpha {
-			if c.Kind == "start" && it.m.Ended {
+			if (c.Kind == "start" || c.Kind == "startshort") && it.m.Ended {
 				continue // reuse after End is outside the quantifier
 			}
 			want, nm := expect(r, it.m, c)
@@ -361,8 +372,8 @@ func main() {
 		roles = append(roles, role{dkgsys.FVSSQ, 4, 2, 3, 1, "non-dealer"}, role{dkgsys.JF, 4, 2, 1, 0, "participant1"})
 	}
 	ev.Par(len(roles), func(i int) { explore(roles[i], depth) })
-	run.Set("rule", "per (protocol, role): BFS from a fresh real instance over the call alphabet {Start, NextTimeout, End, ForceDisqualify(-1|dealer|other|n), HandleBroadcastMsg/HandlePrivateMsg(origin in {-1,self,dealer,other,n} x message in {empty, junk tag, recorded well-formed vector/complaint/answer/share})}; successor = deep clone + real call; states deduplicated by (canonical hash of every instance field, model state); explored to fixpoint below the depth cap (depth_cap_hit reports whether the cap cut anything). Each call's error class and Running() are compared with the documented state machine; every rejected call is checked for non-interference (equal canonical state, else all continuations to depth 3). distinct_nontrivial = distinct reachable (instance state) classes.")
+	run.Set("rule", "per (protocol, role): BFS from a fresh real instance over the call alphabet {Start(valid seed), Start(31-byte seed), NextTimeout, End, ForceDisqualify(-1|dealer|other|n), HandleBroadcastMsg/HandlePrivateMsg(origin in {-1,self,dealer,other,n} x message in {empty, junk tag, recorded well-formed vector/complaint/answer/share})}; successor = deep clone + real call; states deduplicated by (canonical hash of every instance field, model state); explored to fixpoint below the depth cap (depth_cap_hit reports whether the cap cut anything). Each call's error class and Running() are compared with the documented state machine; every rejected call is checked for non-interference (equal canonical state, else all continuations to depth 3). distinct_nontrivial = distinct reachable (instance state) classes.")
 	run.Set("depth_cap", depth)
-	run.Assume("Start is only called with a valid seed; reuse after End (Start after End) is outside the quantifier", "well-formed messages come from an honest dealer run with the same parameters")
+	run.Assume("reuse after End (Start after End) is outside the quantifier", "well-formed messages come from an honest dealer run with the same parameters")
 	run.Finish()
 }
